@@ -359,8 +359,9 @@ Proof. intros. apply func_index_none. assumption. Qed.
 (* ----- evaluation of observed trait-definition round trips (C14 / C18 run-time stream) -----
    one case = (function indices __getstate__ returned, in [all_fields] order;
                indices __getstate__ returned on the restored/copied trait;
-               restored trait behaved identically on the probe lattice; the subprocess crashed) *)
-Definition ctrait_case := (list Z * list Z * bool * bool)%type.
+               restored trait behaved identically on the probe lattice; the subprocess crashed;
+               the reference counts of the state's objects are what the traits holding them explain) *)
+Definition ctrait_case := (list Z * list Z * bool * bool * bool)%type.
 
 Fixpoint forallb2 {A B} (f : A -> B -> bool) (a : list A) (b : list B) : bool :=
   match a, b with
@@ -379,16 +380,18 @@ Definition idx_first (T : ctables) (fld : field) (i : Z) : bool :=
   | None => false
   end.
 
-(* law: 1 crash, 2 an index outside its table, 3 the copy pickles to different functions, 4 behaviour differs *)
+(* law: 1 crash, 2 an index outside its table, 3 the copy pickles to different functions, 4 behaviour differs,
+   6 reference counts of the state's objects not neutral *)
 Definition ctrait_law_codes (T : ctables) (c : ctrait_case) : list Z :=
-  let '(idx, idx2, same, crashed) := c in
+  let '(idx, idx2, same, crashed, rc_ok) := c in
   if crashed then [1%Z] else
   (if forallb2 (idx_in_bounds T) all_fields idx && forallb2 (idx_in_bounds T) all_fields idx2 then [] else [2%Z])
   ++ (if zlist_eqb idx idx2 then [] else [3%Z])
-  ++ (if same then [] else [4%Z]).
+  ++ (if same then [] else [4%Z])
+  ++ (if rc_ok then [] else [6%Z]).
 
 Definition ctrait_corr_codes (T : ctables) (c : ctrait_case) : list Z :=
-  let '(idx, idx2, same, crashed) := c in
+  let '(idx, idx2, same, crashed, rc_ok) := c in
   if crashed then [] else
   if forallb2 (idx_in_bounds T) all_fields idx then
     (if forallb2 (idx_first T) all_fields idx then [] else [5%Z])
